@@ -46,6 +46,9 @@ type entry struct {
 	nWit int
 	one  func(c *ctx, sub uint64, bad bool, class string)
 	wit  func(c *ctx, index int)
+	// enum evaluates the value the generator builds from a script of choices
+	// (enumeration mode) and returns the radix of every choice point it met
+	enum func(c *ctx, script []int) []int
 	// unmarshal feeds bytes to the type's unmarshaller under recover
 	unmarshal func(b []byte) (panicked string, err error)
 	// seeds returns printed encodings of a generated value (mutation seeds)
@@ -111,6 +114,61 @@ func panicClass(p string) string {
 		}
 		return r
 	}, p)
+}
+
+// scriptString renders a choice script ("-" when empty).
+func scriptString(sc []int) string {
+	if len(sc) == 0 {
+		return "-"
+	}
+	p := make([]string, len(sc))
+	for i, d := range sc {
+		p[i] = fmt.Sprint(d)
+	}
+	return strings.Join(p, ".")
+}
+
+func parseScript(s string) []int {
+	if s == "-" || s == "" {
+		return nil
+	}
+	var out []int
+	for _, p := range strings.Split(s, ".") {
+		d := 0
+		fmt.Sscan(p, &d)
+		out = append(out, d)
+	}
+	return out
+}
+
+// enumerate walks the tree of generator choices breadth first (fewest non-default choices
+// first): a script fixes the first len(script) choices, later ones take their first
+// alternative; its successors set exactly one later choice to a non-default alternative.
+// Every script without trailing zeros is visited once.  Returns the number of values
+// evaluated and whether the whole tree was covered within the cap.
+func enumerate(cap int, run func(script []int) []int) (n int, complete bool) {
+	queue := [][]int{nil}
+	for len(queue) > 0 {
+		if n >= cap {
+			return n, false
+		}
+		sc := queue[0]
+		queue = queue[1:]
+		rad := run(sc)
+		n++
+		for p := len(sc); p < len(rad); p++ {
+			for d := 1; d < rad[p]; d++ {
+				if len(queue)+n > 4*cap {
+					break
+				}
+				ns := make([]int, p+1)
+				copy(ns, sc)
+				ns[p] = d
+				queue = append(queue, ns)
+			}
+		}
+	}
+	return n, true
 }
 
 // errClass is a coarse, stable normal form of an error message.
@@ -229,17 +287,25 @@ func register[T any](s spec[T]) {
 		}
 		return out
 	}
-	var eval func(c *ctx, sub uint64, bad bool, class string, fixed *T)
-	e.one = func(c *ctx, sub uint64, bad bool, class string) { eval(c, sub, bad, class, nil) }
+	var eval func(c *ctx, sub uint64, bad bool, class string, fixed *T, eg *gen)
+	e.one = func(c *ctx, sub uint64, bad bool, class string) { eval(c, sub, bad, class, nil, nil) }
+	e.enum = func(c *ctx, script []int) []int {
+		g := &gen{enum: true, script: script}
+		eval(c, 0, false, "exhaustive", nil, g)
+		return g.radices
+	}
 	e.wit = func(c *ctx, index int) {
 		if index >= 0 && index < len(s.witnesses) {
 			w := s.witnesses[index]
-			eval(c, uint64(index), false, "corpus", &w)
+			eval(c, uint64(index), false, "corpus", &w, nil)
 		}
 	}
-	eval = func(c *ctx, sub uint64, bad bool, class string, fixed *T) {
+	eval = func(c *ctx, sub uint64, bad bool, class string, fixed *T, eg *gen) {
 		r := c.r
 		g := &gen{r: common.NewRand(sub), bad: bad}
+		if eg != nil {
+			g = eg
+		}
 		var v T
 		gp := guard("gen", func() ([]byte, []xml.Token, error) {
 			if fixed != nil {
@@ -252,6 +318,9 @@ func register[T any](s spec[T]) {
 		line := fmt.Sprintf("val %s %d %s", s.name, sub, common.B(bad))
 		if fixed != nil {
 			line = fmt.Sprintf("val %s %d 2", s.name, sub)
+		}
+		if eg != nil {
+			line = fmt.Sprintf("val %s %s 3", s.name, scriptString(eg.script))
 		}
 		lines := []string{r.Prop + " " + line}
 		r.Line(line, "-")
